@@ -170,6 +170,19 @@ def deep_docs():
                     longs.append(('act', 'SEC 1 - h\n  ' + body + real + '\n'))
     return [('act', deep), ('act', long_line), ('act', many), ('act', attrs)] + longs
 
+def num_docs():
+    """nums as people type them: two spaces or a tab inside, several words, punctuation at either end, a dash that is not a separator,
+    digits and letters of other scripts - on hierarchical elements, list items and speech containers; the num is kept character by
+    character (only its edges are trimmed), so the round trip must give it back as it was"""
+    nums = ['1.  Short title', '(a)  (i)', '2  bis', 'I\tA', '1 .', '12\u201314', '1 \u2013 2', '(1)(a)', '1.1.1.', 'IV', '\u0663', '1\u00a0bis', '\u00a7 4', '"A"', "1'", '1*', '2/3', 'A_1', '{1}', '1 -2', '3- 4']
+    out = []
+    for n in nums:
+        out.append(('act', 'SEC %s\n  text\n' % n))
+        out.append(('act', 'PART %s - General\n  SEC 1\n    text\n' % n))
+        out.append(('statement', 'ITEMS\n  ITEM %s\n    x\n' % n))
+        out.append(('debate', 'DEBATESECTION %s - Questions\n  SPEECH\n    FROM a\n    words\n' % n))
+    return out
+
 def empty_docs():
     """keyword lines with nothing after them (an empty CROSSHEADING, LONGTITLE, P, list, table, hierarchical element ...) next to a full sibling of
     the same kind, in five contexts and four orders: the empty one is dropped or kept as an empty element, and the siblings' eIds must
@@ -247,7 +260,7 @@ def search(ctx, budget):
         ctx.evaluations += 1; ctx.count('witness_' + r[0])
         if r[0] == 'bad':
             ctx.failures.append(({'stage': 'witness', 'family': fam, 'root': root, 'text': text}, r[1]))
-    kd = keyword_text_docs() + [(r, t) for t in FOOTNOTE_SHAPES + RAW_SLOT_DOCS for r in ('act', 'doc')] + deep_docs() + empty_docs()
+    kd = keyword_text_docs() + [(r, t) for t in FOOTNOTE_SHAPES + RAW_SLOT_DOCS for r in ('act', 'doc')] + deep_docs() + empty_docs() + num_docs()
     for (root, text), r in zip(kd, impl.pmap(_wjob, kd, chunk=16)):
         ctx.evaluations += 1; ctx.count('keyword_text_' + r[0])
         if r[0] == 'bad':
@@ -295,7 +308,7 @@ LEVEL_TEXT = ('Partial. Proved on the tables regenerated from akn_text.xsl, akn.
               'or speech keyword of the grammar gives an element that template matches (C05_unparsed_keyword_parses_back, C05_keywords_have_templates); the Gallina model of the unparser has a branch for '
               'exactly the elements the stylesheet has templates for (C05_templates_are_modelled), and over that model: trees equal up to their eId attributes '
               'unparse to the same text in every context, so the unparsed text does not depend on eIds (C05_unparse_up_to_eids, C05_unparse_ignores_eids). '
-              'The round trip is a theorem for two element kinds, through the whole pipeline model: for every known FRBR URI, every eId prefix and every text s without tab or line break, without blanks at its ends and of XML-legal characters - whatever it spells - convert(unparse(<p eId=prefix__p_1>s</p>)) is that very element, eId included (C05_paragraph_round_trip; instances run on the implementation on every run); and for the basic hierarchical element: for each of the 34 keywords\' elements, every num without blank, dash or backslash, every such heading and paragraph text, convert(unparse(<tag eId><num/><heading/><content><p eId/></content></tag>)) is that very element - the keyword the unparser prints names the same element, the blank line it writes after the keyword line is layout (C05_section_round_trip; instances on every run). For all other elements the round trip is not a theorem: it is decided by the oracle on the implementation: identity of parse(unparse(x)) with eIds, '
+              'The round trip is a theorem for two element kinds, through the whole pipeline model: for every known FRBR URI, every eId prefix and every text s without tab or line break, without blanks at its ends and of XML-legal characters - whatever it spells - convert(unparse(<p eId=prefix__p_1>s</p>)) is that very element, eId included (C05_paragraph_round_trip; instances run on the implementation on every run); and for the basic hierarchical element: for each of the 34 keywords\' elements, every num without blank, dash or backslash, every such heading and paragraph text, convert(unparse(<tag eId><num/><heading/><content><p eId/></content></tag>)) is that very element - the keyword the unparser prints names the same element, the blank line it writes after the keyword line is layout (C05_section_round_trip, and C05_section_round_trip_no_heading for the element without a heading; instances on every run). For all other elements the round trip is not a theorem: it is decided by the oracle on the implementation: identity of parse(unparse(x)) with eIds, '
               'a no-op second round trip, and fragment round trips for every element kind, on sampled documents of the C04 specification generator x seven '
               'roots; the stylesheet is modelled in full (Model/Unparse.v, Model/UnparseDoc.v) and tied to libxslt by the xslstr and unp stages. Documents from forgiving-mode input are not '
               'claimed (listed findings).')
